@@ -66,7 +66,7 @@ func runKV(c kvCase) (Outcome, map[string]interface{}) {
 			return Outcome{Ret: mv.PathForKeyShortest(c.Key)}
 		case "LeafNodes", "LeafPaths", "LeafValues":
 			applyCount++
-			if c.Prefix == "" && applyCount%2 == 0 {
+			if c.Prefix == "" && hash64(fmt.Sprint("leaf", applyCount))%2 == 0 {
 				mxj.PrependAttrWithHyphen(false) // the other documented way to the empty prefix (from the current "-")
 			} else {
 				mxj.SetAttrPrefix(c.Prefix)
